@@ -12,6 +12,7 @@ import (
 	"context"
 	"encoding/json"
 	"errors"
+	"fmt"
 	"math/big"
 	"sort"
 	gosync "sync"
@@ -42,10 +43,11 @@ type TickIn struct {
 	Tip uint64 `json:"tip"`
 	Fin uint64 `json:"fin"`
 	Err bool   `json:"err"`
+	EK  int    `json:"ek"` // flavour of the error when Err: 0 generic, 1 wraps DeadlineExceeded, 2 wraps Canceled (caller's ctx alive)
 }
 
 type In struct {
-	Kind     string    `json:"kind"`  // exh | rand | err | regress | jitter
+	Kind     string    `json:"kind"`  // exh | exhrpc | rand | err | mismatch | regress | jitter | cancel | giveup
 	LP0      uint64    `json:"lp0"`   // processor's last processed block at start
 	Chunk    uint64    `json:"chunk"` // syncBlockChunkSize
 	Mode     string    `json:"mode"`  // LF | FF | LL | LS | SF  (blockFinality / finalizedBlockType)
@@ -54,7 +56,8 @@ type In struct {
 	Chain    [][]LogIn `json:"chain"` // chain[k] = all logs of block k in log order
 	Ticks    []TickIn  `json:"ticks"`
 	Buf      int       `json:"buf"`       // downloadBufferSize
-	RPCErr   int       `json:"rpc_err"`   // every n-th eth_getLogs / numbered header call fails once (0 = never)
+	Calls    []string  `json:"calls"`     // outcome of the i-th numbered RPC call (eth_getLogs, header by number), then "ok":
+	//                                       ok | err | deadline | notfound | canceled (caller's ctx alive) | mismatch (header with another hash)
 	ProcErr  int       `json:"proc_err"`  // every n-th ProcessBlock call fails once
 	TrackErr int       `json:"track_err"` // every n-th AddBlockToTrack call fails once
 	AppErr   int       `json:"app_err"`   // every n-th appender call fails once (before appending)
@@ -123,6 +126,9 @@ func normalise(in *In) {
 	if in.Topics == nil {
 		in.Topics = []int{}
 	}
+	if in.Calls == nil {
+		in.Calls = []string{}
+	}
 	for i := range in.Chain {
 		if in.Chain[i] == nil {
 			in.Chain[i] = []LogIn{}
@@ -134,6 +140,10 @@ func normalise(in *In) {
 // scripted node
 
 var errScripted = errors.New("scripted transient rpc error")
+
+// errors as an RPC client with its own per-request timeout / internal context produces them: the caller's context is alive
+func errDeadline() error { return fmt.Errorf("scripted rpc timeout: %w", context.DeadlineExceeded) }
+func errCanceled() error { return fmt.Errorf("scripted rpc client cancellation: %w", context.Canceled) }
 
 type fakeClient struct {
 	aggkittypes.BaseEthereumClienter // nil: any method the code is not expected to call panics
@@ -168,9 +178,28 @@ func (c *fakeClient) header(n uint64) *types.Header {
 	return types.CopyHeader(c.headers[n])
 }
 
-func (c *fakeClient) injectErr() bool {
+// outcome of the next numbered RPC call
+func (c *fakeClient) nextOutcome() string {
+	o := "ok"
+	if c.calls < len(c.in.Calls) {
+		o = c.in.Calls[c.calls]
+	}
 	c.calls++
-	return c.in.RPCErr > 0 && c.calls%c.in.RPCErr == 0
+	return o
+}
+
+func outcomeErr(o string) error {
+	switch o {
+	case "err":
+		return errScripted
+	case "deadline":
+		return errDeadline()
+	case "notfound":
+		return ethereum.NotFound
+	case "canceled":
+		return errCanceled()
+	}
+	return nil
 }
 
 func (c *fakeClient) HeaderByNumber(ctx context.Context, number *big.Int) (*types.Header, error) {
@@ -196,6 +225,12 @@ func (c *fakeClient) HeaderByNumber(ctx context.Context, number *big.Int) (*type
 		}
 		defer c.mu.Unlock()
 		if t.Err {
+			switch t.EK {
+			case 1:
+				return nil, errDeadline()
+			case 2:
+				return nil, errCanceled()
+			}
 			return nil, errScripted
 		}
 		n := t.Fin
@@ -206,8 +241,9 @@ func (c *fakeClient) HeaderByNumber(ctx context.Context, number *big.Int) (*type
 	}
 	c.mu.Lock()
 	defer c.mu.Unlock()
-	if c.injectErr() {
-		return nil, errScripted
+	outcome := c.nextOutcome()
+	if err := outcomeErr(outcome); err != nil {
+		return nil, err
 	}
 	var n uint64
 	if number != nil {
@@ -219,7 +255,11 @@ func (c *fakeClient) HeaderByNumber(ctx context.Context, number *big.Int) (*type
 	if n > c.maxTip { // the node does not have this block (yet)
 		return nil, ethereum.NotFound
 	}
-	return c.header(n), nil
+	h := c.header(n)
+	if outcome == "mismatch" { // answered from another head: same number, different hash
+		h.Extra = []byte("other head")
+	}
+	return h, nil
 }
 
 func (c *fakeClient) FilterLogs(ctx context.Context, q ethereum.FilterQuery) ([]types.Log, error) {
@@ -228,8 +268,8 @@ func (c *fakeClient) FilterLogs(ctx context.Context, q ethereum.FilterQuery) ([]
 	}
 	c.mu.Lock()
 	defer c.mu.Unlock()
-	if c.injectErr() {
-		return nil, errScripted
+	if err := outcomeErr(c.nextOutcome()); err != nil {
+		return nil, err
 	}
 	from, to := q.FromBlock.Uint64(), q.ToBlock.Uint64()
 	c.queries = append(c.queries, [2]uint64{from, to})
@@ -516,6 +556,9 @@ func schedules(L uint64) [][]TickIn {
 			ts[i] = f(i)
 			ts[i].Tip = minU(ts[i].Tip, L)
 			ts[i].Fin = minU(ts[i].Fin, ts[i].Tip)
+			if ts[i].Err {
+				ts[i].EK = (i / 3) % 3
+			}
 		}
 		return ts
 	}
@@ -590,6 +633,21 @@ func genExhaustive(maxL uint64) []In {
 				for si, ts := range schedules(L) {
 					ins = append(ins, In{Kind: "exh", LP0: 0, Chunk: chunk, Mode: "LF", Addrs: []int{1, 2}, Topics: []int{1, 2},
 						Chain: chain, Ticks: ts, Buf: []int{0, 1, 3, 100}[(int(mask)+si)%4]})
+					if si != 0 && si != 3 {
+						continue
+					}
+					// the same run with failing / inconsistent numbered RPC calls: a timeout of the first eth_getLogs; retried
+					// failures of every kind; a hash mismatch on the 2nd header query (= 2nd event block of the first range when it
+					// has two); mismatches on the 1st and, after the retry, on the 2nd event block
+					for _, calls := range [][]string{
+						{"deadline"},
+						{"ok", "deadline", "err", "ok", "notfound"},
+						{"ok", "ok", "mismatch"},
+						{"ok", "mismatch", "deadline", "ok", "ok", "mismatch", "ok", "ok", "ok", "mismatch"},
+					} {
+						ins = append(ins, In{Kind: "exhrpc", LP0: 0, Chunk: chunk, Mode: "LF", Addrs: []int{1, 2}, Topics: []int{1, 2},
+							Chain: chain, Ticks: ts, Buf: []int{0, 1, 3, 100}[(int(mask)+si)%4], Calls: calls})
+					}
 				}
 			}
 		}
@@ -628,14 +686,71 @@ func genRandom(rng *hlib.Rng) In {
 	switch {
 	case stream < 18:
 		in.Kind = "err"
-		in.RPCErr = hlib.Pick(rng, 0, 2, 3, 5)
 		in.ProcErr = hlib.Pick(rng, 0, 2, 3)
 		in.TrackErr = hlib.Pick(rng, 0, 2, 3)
 		in.AppErr = hlib.Pick(rng, 0, 2, 5)
+		mism := 0
+		for i := 0; i < int(4*L); i++ {
+			o := hlib.Pick(rng, "ok", "ok", "ok", "ok", "ok", "ok", "ok", "ok", "ok", "ok", "ok", "ok", "ok", "ok",
+				"err", "err", "deadline", "deadline", "notfound", "mismatch")
+			if o == "mismatch" {
+				if mism++; mism > 5 {
+					o = "ok"
+				}
+			}
+			in.Calls = append(in.Calls, o)
+		}
 	case stream < 24:
 		in.Kind = "regress"
 	case stream < 32:
 		in.Kind = "jitter"
+	case stream < 40, stream < 43, stream < 47:
+		// ranges with several event blocks and a node answering headers from another head:
+		// mismatch (<= 5 in the run), giveup (6 in a row: outside H3), cancel (context.Canceled with a live context: outside H3)
+		in.Kind = "mismatch"
+		if stream >= 40 {
+			in.Kind = "giveup"
+		}
+		if stream >= 43 {
+			in.Kind = "cancel"
+		}
+		in.Chunk = hlib.Pick(rng, uint64(3), 7, 100)
+		for k := uint64(1); k <= L; k++ {
+			if rng.Intn(100) < 70 {
+				in.Chain[k] = []LogIn{{A: 1, T: 1}, {A: hlib.Pick(rng, 1, 2, 3), T: hlib.Pick(rng, 1, 2, 3)}}
+			}
+		}
+		if rng.Intn(4) != 0 {
+			lag = 0
+		}
+		attempt := func(j int) []string { // eth_getLogs, j-1 good headers, then a header from another head
+			a := []string{"ok"}
+			for i := 1; i < j; i++ {
+				a = append(a, "ok")
+				if rng.Intn(6) == 0 {
+					a = append(a, hlib.Pick(rng, "err", "deadline", "notfound"))
+				}
+			}
+			return append(a, "mismatch")
+		}
+		switch in.Kind {
+		case "mismatch":
+			for i := rng.Intn(4); i > 0; i-- {
+				in.Calls = append(in.Calls, "ok")
+			}
+			for k := 1 + rng.Intn(5); k > 0; k-- {
+				in.Calls = append(in.Calls, attempt(hlib.Pick(rng, 1, 2, 2, 3, 3))...)
+			}
+		case "giveup":
+			for k := 0; k < 6+rng.Intn(2); k++ {
+				in.Calls = append(in.Calls, attempt(1)...)
+			}
+		case "cancel":
+			for i := rng.Intn(5); i > 0; i-- {
+				in.Calls = append(in.Calls, hlib.Pick(rng, "ok", "ok", "err"))
+			}
+			in.Calls = append(in.Calls, "canceled")
+		}
 	}
 	// world: tip T and finalized F move per call
 	T := uint64(1 + rng.Intn(int(L)))
@@ -644,6 +759,10 @@ func genRandom(rng *hlib.Rng) In {
 	}
 	if rng.Intn(4) == 0 && in.Kind != "regress" { // restart in the middle of the chain
 		in.LP0 = uint64(rng.Intn(int(T) + 1))
+	}
+	if in.Kind == "mismatch" || in.Kind == "giveup" || in.Kind == "cancel" {
+		T = L - uint64(rng.Intn(2))
+		in.LP0 = 0
 	}
 	if in.Kind == "regress" { // the node is behind the store
 		T = uint64(1 + rng.Intn(int(L)))
@@ -681,7 +800,11 @@ func genRandom(rng *hlib.Rng) In {
 			fin = sub0(F, uint64(rng.Intn(3)))
 		}
 		e := (in.Kind == "err" && rng.Intn(8) == 0)
-		ticks = append(ticks, TickIn{Tip: shown, Fin: minU(fin, T), Err: e})
+		ek := 0
+		if e {
+			ek = rng.Intn(3)
+		}
+		ticks = append(ticks, TickIn{Tip: shown, Fin: minU(fin, T), Err: e, EK: ek})
 		if T == L && (lag < 0 || F >= sub0(L, uint64(lag))) {
 			if left < 0 {
 				left = tail
